@@ -112,11 +112,15 @@ pub struct Opts {
     pub inner_emits: bool,
     /// Emit statement-level markers `emit(<n>)` between statements.
     pub markers: bool,
+    /// No in-place mutation of containers and no augmented assignment on them (static-checker domain).
+    pub no_mutation: bool,
+    /// Write parameter and return type annotations on defs.
+    pub annotate: bool,
 }
 
 impl Default for Opts {
     fn default() -> Opts {
-        Opts { profile: Profile::Shared, max_stmts: 24, fail_pct: 25, inner_emits: true, markers: true }
+        Opts { profile: Profile::Shared, max_stmts: 24, fail_pct: 25, inner_emits: true, markers: true, no_mutation: false, annotate: false }
     }
 }
 
@@ -152,6 +156,31 @@ pub fn str_lit(s: &str) -> String {
     }
     o.push('"');
     o
+}
+
+/// Parenthesise an expression unless it is already atomic at top level (used before postfix
+/// operators: method call, index, slice — a bare `a + b` receiver would regroup as `a + (b.m())`).
+pub fn atomize(e: String) -> String {
+    let mut depth = 0i32;
+    let mut quote: Option<char> = None;
+    let mut prev = ' ';
+    for c in e.chars() {
+        if let Some(q) = quote {
+            if c == q && prev != '\\' {
+                quote = None;
+            }
+        } else {
+            match c {
+                '"' | '\'' => quote = Some(c),
+                '(' | '[' | '{' => depth += 1,
+                ')' | ']' | '}' => depth -= 1,
+                ' ' | '-' | '+' | '~' if depth == 0 => return format!("({e})"),
+                _ => {}
+            }
+        }
+        prev = c;
+    }
+    e
 }
 
 fn konst(s: String) -> String {
@@ -529,7 +558,7 @@ impl<'a, 'c> Gen<'a, 'c> {
                     format!("({a} if {c} else {b})")
                 }
                 10 => {
-                    let s = self.expr(&Ty::Str, d, true);
+                    let s = atomize(self.expr(&Ty::Str, d, true));
                     let sub = self.str_const(false);
                     // empty needle excluded (corner where conventions differ is outside the shared core)
                     let m = *self.ch.pick(&["find", "rfind", "count"]);
@@ -591,7 +620,7 @@ impl<'a, 'c> Gen<'a, 'c> {
                     }
                 }
                 5 => {
-                    let s = self.expr(&Ty::Str, d, true);
+                    let s = atomize(self.expr(&Ty::Str, d, true));
                     let m = *self.ch.pick(&["startswith", "endswith"]);
                     let p = self.str_const(false);
                     format!("{s}.{m}({p})")
@@ -616,7 +645,7 @@ impl<'a, 'c> Gen<'a, 'c> {
                     if self.ch.bool() { format!("({a} * {n})") } else { format!("({n} * {a})") }
                 }
                 3 => {
-                    let a = self.expr(&Ty::Str, d, flow);
+                    let a = atomize(self.expr(&Ty::Str, d, flow));
                     let sl = self.slice_suffix();
                     format!("{a}{sl}")
                 }
@@ -669,7 +698,7 @@ impl<'a, 'c> Gen<'a, 'c> {
                         format!("({a} * {n})")
                     }
                     4 => {
-                        let a = self.expr(ty, d, flow);
+                        let a = atomize(self.expr(ty, d, flow));
                         let sl = self.slice_suffix();
                         format!("{a}{sl}")
                     }
@@ -696,7 +725,7 @@ impl<'a, 'c> Gen<'a, 'c> {
                         }
                     }
                     8 if t == Ty::Str => {
-                        let s = self.expr(&Ty::Str, d, flow);
+                        let s = atomize(self.expr(&Ty::Str, d, flow));
                         let sep = konst(str_lit(self.ch.pick_s(&[" ", ",", "a", "b", "ab", "-"])));
                         match self.ch.below(3) {
                             0 => format!("{s}.split({sep})"),
@@ -722,7 +751,7 @@ impl<'a, 'c> Gen<'a, 'c> {
                             }
                         }
                         if let Some(kt) = self.dict_with_key(&t) {
-                            let a = self.expr(&kt, d, flow);
+                            let a = atomize(self.expr(&kt, d, flow));
                             return format!("{}({a}.keys())", callee("list"));
                         }
                         self.call_expr(ty, d, flow)
@@ -861,14 +890,14 @@ impl<'a, 'c> Gen<'a, 'c> {
                 format!("({s} + {t}).{m}()")
             }
             1 => {
-                let s = self.expr(&Ty::Str, d, flow);
+                let s = atomize(self.expr(&Ty::Str, d, flow));
                 let m = *self.ch.pick(&["strip", "lstrip", "rstrip"]);
                 let cs = konst(str_lit(self.ch.pick_s(&[" ", "a", "ab", " a", "x-"])));
                 format!("{s}.{m}({cs})")
             }
             2 => {
                 // replace: `new` no longer than `old` + constant; both literals (linear flow)
-                let s = self.expr(&Ty::Str, d, flow);
+                let s = atomize(self.expr(&Ty::Str, d, flow));
                 let old = konst(str_lit(self.ch.pick_s(&["a", "b", "ab", " ", "é", "ba"])));
                 let new = konst(str_lit(self.ch.pick_s(&["", "a", "X", "yz", "名"])));
                 format!("{s}.replace({old}, {new})")
@@ -877,17 +906,17 @@ impl<'a, 'c> Gen<'a, 'c> {
                 self.label("join");
                 let sep = self.str_const(false);
                 let xs = self.expr(&Ty::List(Box::new(Ty::Str)), d, flow);
-                format!("{sep}.join({xs})")
+                format!("{}.join({xs})", atomize(sep))
             }
             4 => {
-                let s = self.expr(&Ty::Str, d, flow);
+                let s = atomize(self.expr(&Ty::Str, d, flow));
                 let p = self.str_const(false);
                 let m = *self.ch.pick(&["removeprefix", "removesuffix"]);
                 format!("{s}.{m}({p})")
             }
             5 => {
                 // partition -> pick a component
-                let s = self.expr(&Ty::Str, d, flow);
+                let s = atomize(self.expr(&Ty::Str, d, flow));
                 let sep = konst(str_lit(self.ch.pick_s(&["a", " ", "-", "b"])));
                 let m = *self.ch.pick(&["partition", "rpartition"]);
                 format!("{s}.{m}({sep})[{}]", self.small_int_lit(0, 2))
@@ -1164,11 +1193,23 @@ impl<'a, 'c> Gen<'a, 'c> {
             0 => self.stmt_assign_new(),
             1 => self.stmt_emit(),
             2 => self.stmt_reassign(),
-            3 => self.stmt_mutate(),
+            3 => {
+                if self.o.no_mutation {
+                    self.stmt_assign_new()
+                } else {
+                    self.stmt_mutate()
+                }
+            }
             4 => self.stmt_if(),
             5 => self.stmt_for(),
             6 => self.stmt_def(),
-            7 => self.stmt_augassign(),
+            7 => {
+                if self.o.no_mutation {
+                    self.stmt_emit()
+                } else {
+                    self.stmt_augassign()
+                }
+            }
             8 => self.stmt_return(),
             9 => {
                 let c = self.expr(&Ty::Bool, 2, true);
@@ -1201,7 +1242,12 @@ impl<'a, 'c> Gen<'a, 'c> {
                 if ty.is_container() && self.expr_may_alias(&e) { (0, false) } else { (self.fresh_group(), true) }
             }
         };
-        self.line(&format!("{name} = {e}"));
+        if self.o.annotate && self.ch.chance(1, 3) {
+            self.label("annotated_assign");
+            self.line(&format!("{name}: {} = {e}", ty_src(&ty)));
+        } else {
+            self.line(&format!("{name} = {e}"));
+        }
         self.add_var(name, ty, group, own);
     }
 
@@ -1653,8 +1699,18 @@ impl<'a, 'c> Gen<'a, 'c> {
             };
             params.push((self.fresh("p"), t, def));
         }
-        let star = if !need_default && !recursive && self.ch.chance(1, 6) { Some(if self.ch.bool() { Ty::Int } else { Ty::Str }) } else { None };
-        let mut sig: Vec<String> = params.iter().map(|(n, _, d)| match d { Some(d) => format!("{n}={d}"), None => n.clone() }).collect();
+        let star = if !need_default && !recursive && !self.o.no_mutation && self.ch.chance(1, 6) { Some(if self.ch.bool() { Ty::Int } else { Ty::Str }) } else { None };
+        let annotate = self.o.annotate && self.ch.chance(2, 3);
+        let mut sig: Vec<String> = params
+            .iter()
+            .map(|(n, t, d)| {
+                let n = if annotate { format!("{n}: {}", ty_src(t)) } else { n.clone() };
+                match d {
+                    Some(d) => format!("{n} = {d}"),
+                    None => n,
+                }
+            })
+            .collect();
         let star_name = self.fresh("a");
         if star.is_some() {
             sig.push(format!("*{star_name}"));
@@ -1663,7 +1719,12 @@ impl<'a, 'c> Gen<'a, 'c> {
         if params.iter().any(|p| p.2.is_some()) {
             self.label("defaults");
         }
-        self.line(&format!("def {name}({}):", sig.join(", ")));
+        if annotate {
+            self.label("annotated_def");
+            self.line(&format!("def {name}({}) -> {}:", sig.join(", "), ty_src(&ret)));
+        } else {
+            self.line(&format!("def {name}({}):", sig.join(", ")));
+        }
         let f = Func { name: name.clone(), params: params.clone(), ret: ret.clone(), star_args: star.clone(), recursive_depth: recursive };
         // body
         let mut scope = Scope { kind: ScopeKind::Def, vars: Vec::new(), funcs: Vec::new(), locked: Vec::new(), loop_depth: 0, ret: Some(ret.clone()) };
@@ -1776,6 +1837,20 @@ impl<'a, 'c> Gen<'a, 'c> {
 
 // -------------------------------------------------------------------------------------------
 // Rendering of the marked-up text
+
+/// Starlark type expression for a generator type (fixed-arity tuples use the tuple-of-types spelling).
+pub fn ty_src(t: &Ty) -> String {
+    match t {
+        Ty::Int => "int".into(),
+        Ty::Bool => "bool".into(),
+        Ty::Str => "str".into(),
+        Ty::None => "None".into(),
+        Ty::List(t) => format!("list[{}]", ty_src(t)),
+        Ty::Tuple(ts) if ts.len() == 1 => format!("({},)", ty_src(&ts[0])),
+        Ty::Tuple(ts) => format!("({})", ts.iter().map(ty_src).collect::<Vec<_>>().join(", ")),
+        Ty::Dict(k, v) => format!("dict[{}, {}]", ty_src(k), ty_src(v)),
+    }
+}
 
 /// Plain rendering: markers removed.
 pub fn render_plain(marked: &str) -> String {
